@@ -51,6 +51,8 @@ def plan_c01(tier, seed):
     runs = grid(["map", "set"], ALL, ["U2"], ["hi", "lo"], "full", ["exact"], ["lookups"])
     runs += grid(["map", "set"], MID4, ["U2"], ["mid"], "full", ["exact"], ["lookups"])
     runs += grid(["map", "set"], ["u8"], ["fork4"], ["hi"], "structural", ["exact"], ["lookups"], retain_all=False, threads=4)
+    if tier == "quick":
+        runs += grid(["map"], ["u8"], ["U3"], ["hi"], "canonical", ["exact"], threads=8, retain_all=False)
     if tier == "thorough":
         runs += grid(["map"], ["u8", "u32"], ["U3"], ["hi"], "structural", ["exact"], threads=8, retain_all=False)
         runs += grid(["map", "set"], ALL, ["comb5"], ["hi"], "structural", ["exact"], ["lookups"], retain_all=False)
@@ -69,6 +71,9 @@ def e1_plan(obs_map, obs_set, alpha="structural", quick_types=ALL, canonical_obs
         runs += grid(["map"], ["u8"], ["fork4"], ["hi"], "structural", obs_map, obs_set, retain_all=False, threads=4)
         if canonical_obs is not None:
             runs += grid(["map"], types, ["U2"], ["hi", "lo"], "canonical", canonical_obs)
+        # every key set over all prefixes of length <= 3 (32 768 canonical shapes, bushy depth 3)
+        if "find" not in obs_map and tier == "quick":
+            runs += grid(["map"], ["u8"], ["U3"], ["hi"], "canonical", canonical_obs if canonical_obs is not None else obs_map, threads=8, retain_all=False)
         if tier == "thorough":
             runs += grid(["map"], ["u8", "u32"], ["U3"], ["hi"], "structural", obs_map, threads=8, retain_all=False)
             runs += grid(list(kinds), REP7, ["comb5"], ["hi"], "structural", obs_map, obs_set, retain_all=False)
